@@ -284,6 +284,8 @@ class CTMCGridGeometric(CTMCGrid):
         """
         if nb_of_points_on_each_side < 2:
             raise ValueError("expected nb_of_points_on_each_side >= 2")
+        if not h > 0:
+            raise ValueError("expected h > 0")
         l, r = compute_truncation(
             model=model, h=h, truncation_probability=truncation_probability
         )
@@ -314,6 +316,8 @@ class CTMCGridGeometric(CTMCGrid):
         """
         if nb_of_points_on_each_side < 2:
             raise ValueError("expected nb_of_points_on_each_side >= 2")
+        if not h > 0:
+            raise ValueError("expected h > 0")
         l, r = truncations
         if not (l < -h and h < r):
             raise ValueError("h is too large for the truncation bounds")
